@@ -19,7 +19,7 @@ TECHNIQUE = "model-based stateful PBT: generated read/write/write-same/sync/capa
 RULE = (
     "one case = target geometry (block size, capacity up to 2^64-1 blocks) + a history of <= 25 facade "
     "calls (write10/12/16, writesame10/16 incl. unmap/anchor/ndob, read10/12/16, synchronizecache10/16, "
-    "readcapacity10/16, inquiry std/VPD 80h/83h) with LBAs biased to 0, earlier write boundaries, 2^32 +- k "
+    "readcapacity10/16, inquiry std/VPD 80h/83h, and device-node replug events on the SG_IO transport) with LBAs biased to 0, earlier write boundaries, 2^32 +- k "
     "and the end of the medium; every flag combination; run over both transports. Non-trivial = a read "
     "overlapping >= 2 earlier writes or any access at LBA >= 2^32; distinct = distinct canonical JSON"
 )
@@ -71,7 +71,10 @@ def history(draw):
                               st.integers(0, min(top, 64)), st.integers(0, top)))
 
     for _ in range(n):
-        kind = draw(st.sampled_from(["w", "w", "w", "ws", "r", "r", "r", "r", "sync", "cap10", "cap16", "inq"]))
+        kind = draw(st.sampled_from(["w", "w", "w", "ws", "r", "r", "r", "r", "sync", "cap10", "cap16", "inq", "replug"]))
+        if kind == "replug":
+            ops.append({"k": "replug"})
+            continue
         if kind in ("w", "r"):
             v = draw(st.sampled_from([10, 12, 16]))
             tl = draw(st.integers(0, 8))
@@ -195,7 +198,8 @@ def run_history(case, transport):
     model = Model(bs)
     obs = []
     nontrivial = False
-    dev = transports.make_sgio() if transport == "sgio" else transports.make_iscsi()
+    path = transports.node_path("c12")
+    dev = transports.make_sgio(path, readwrite=True) if transport == "sgio" else transports.make_iscsi()
     try:
         with lib("attach"):
             s = SCSI(dev, bs)
@@ -204,6 +208,14 @@ def run_history(case, transport):
         for i, op in enumerate(case["ops"]):
             before = len(tgt.log)
             k = op["k"]
+            if k == "replug":
+                # the device node is replaced (hot-plug); the SG_IO transport re-opens it, iSCSI is unaffected
+                if transport == "sgio":
+                    import os
+                    os.unlink(path)
+                    transports.make_node(path)
+                obs.append(("replug", i))
+                continue
             flags = {f: op[f] for f in ("wrprotect", "rdprotect", "dpo", "fua", "rarc", "group", "unmap", "anchor",
                                         "ndob", "immed") if f in op}
             if k == "w":
@@ -313,7 +325,7 @@ def floors(tier, classes, subjects, evaluations, distinct):
     out = []
     if classes.get("lba_ge_2^32", 0) < 0.05 * n:
         out.append("fewer than 5%% of histories touch an LBA >= 2^32 (%d of %d)" % (classes.get("lba_ge_2^32", 0), n))
-    for c in ("w10", "w12", "w16", "ws10", "ws16", "r10", "r12", "r16", "sync10", "sync16", "cap10", "cap16", "inq"):
+    for c in ("replug", "w10", "w12", "w16", "ws10", "ws16", "r10", "r12", "r16", "sync10", "sync16", "cap10", "cap16", "inq"):
         if not classes.get(c):
             out.append("operation %s never generated" % c)
     return out
